@@ -74,6 +74,44 @@ used already and asked for triggers that random testing is unlikely to hit):
   `C19-apply-func-keyword-collision`, `C19-sync-eafp-swallows-typeerror` (future-like awaitables, keyword names, error types).
   One seeded change made a tool run forever on finite input and killed a worker: consumers now stop after 3000 items
   ("runaway") and the comparison with the stdlib reports it.
+* round 5 (43 of 66; same adversarial brief, with the ideas of rounds 1-4 excluded): what was missing were mostly *kinds of
+  object* the generators never produced, and a few oracles that looked at too little:
+  - objects that test false: `C04-collection-builders-skip-falsy-iterables`, `C09-falsy-lock-replaced-by-nolock`,
+    `C10-method-not-bound-for-falsy-instance`, `C12-get-tests-falsy-instance`, `C13/C14/C15-falsy-exception-*` (sources,
+    locks, method holders, property owners and exception objects may now be falsy). The falsy source immediately exposed a
+    real defect (F16, `dict` ignored it);
+  - objects with value equality: `C13-same-exception-by-equality`, `C18-ziplongest-closes-equal-iterator-once`,
+    `C01-awaitify-lru-cached-equal-callables` / `C03-awaitify-lru-cached` (equal exceptions, sources comparing equal,
+    unhashable callables), `C01-reverse-merge-uses-ge` (items now define only `<` and `==`);
+  - `None` / awaitables as plain data: `C02-reduce-none-as-no-initial` (explicit `None` for optional arguments where the
+    stdlib takes it as a value), `C10-full-flag-confuses-none-result` (cached results may be `None` / falsy),
+    `C16-identity-key-awaitified`, `C20-any-iter-remembers-awaited-items` (items that are awaitable objects);
+  - argument shapes: `C10-kwarg-marker-dropped` (a positional tuple that looks like a keyword item),
+    `C15-helper-parameters-not-positional-only`, `C15-decorated-partial-not-a-descriptor` (decorated methods, keyword names
+    the decorator uses itself), `C19-any-iter-tests-asynciterator`, `C19-apply-awaits-result-of-coroutine-function`,
+    `C12-placeholder-name...` (was caught), `C08-aexit-isinstance-acloseable` (a proxy forwarding `aclose` through
+    `__getattr__`), `C05-cycle-replays-sequence-itself`, `C06-sync-set-mapping-snapshot` (user-defined
+    `collections.abc.Sequence` / `Set` sources), `C08-zip-strict-advances-all-remaining`, (the handle as a later argument
+    of the tool; C08 now samples exit points for three programs in four and runs 8000 programs in the quick tier);
+  - histories: `C11-*` (three changes; the sequential continuation now starts from the contents left behind and is
+    explained by a *set* of possible LRU states instead of being compared after a clear), `C14-suppress-flag-kept-on-instance`,
+    `C14-ambient-exception-routed-to-exits` (every single unwind of a history is judged by the unwinding rule; everything
+    also runs inside the handler of an unrelated exception), `C07-reborrow-copies-parent-anext` (ladders of 2..4 handles),
+    `C09-no-cleanup-on-cancel-inside-anext` (a cancelled consumer that lets go of its child), `C04-tee-peer-cleanup-after-loop-only`
+    (sources / key functions raising inside tee and groupby histories - which exposed F17), `C18-cachedproperty-cleanup-keyerror-on-cancel`
+    (`del` while the getter is in flight);
+  - more than one fault, more fault types: `C01-merge-pulls-all-heads-before-keys` (two parties prepared to fail, whichever
+    the stdlib reaches first must win - iterators only), `C06-iter-sentinel-swallows-eoferror`,
+    `C17-scopediter-shields-aclose-on-cancellederror` (EOFError, asyncio.CancelledError, ... as fault types),
+    `C03-aiter-eafp-swallows-attributeerror` (an iterable whose `__iter__`/`__aiter__` itself raises),
+    `C06-scopediter-athrows-into-source` (a generator source that survives exceptions thrown in; C06 now also forbids any
+    use of *another* party once the failure is on its way), `C13-promotion-check-by-context`,
+    `C13-normal-exit-swallows-promoted-stopasync` (generator raising its own RuntimeError / Stop*Iteration afterwards);
+  - seams: `C17-sync-adapter-yields-after-slow-step` read the wall clock - `time.monotonic/time/perf_counter` are now a
+    virtual clock inside runs and sources can be slow; `C17-teepeer-del-drives-cleanup-by-hand` drove a user awaitable by
+    hand from `__del__` - tokens yielded and tokens received by the loop are now counted and must agree after everything
+    has been dropped; `C03-sum-sync-fast-path` (inexact floats, str/bytes sums compared between flavours),
+    `C20-tee-of-tee-child-joins-parent` (a tee of a tee child).
 
 | id | change | needs to manifest | detected by its property's check | also caught by |
 |----|--------|-------------------|----------------------------------|----------------|
